@@ -280,6 +280,26 @@ def get_piped_symbol(node):
     return Node(node[1:-1])
 
 
+def derive_symbol(symbol, prefix='', suffix=''):
+    """Returns a new symbol named after ``symbol`` with the given ``prefix``
+    and ``suffix``, which must consist of simple symbol characters.
+
+    Returns ``None`` if ``symbol`` is not a symbol (i.e., not a leaf node) or
+    if the new symbol is already declared. For a quoted symbol ``|x y|`` the
+    result is quoted as well: ``|<prefix>x y<suffix>|``. Requires that global
+    information has been populated via ``collect_information``.
+    """
+    if not symbol.is_leaf():
+        return None
+    if is_piped_symbol(symbol):
+        res = Node(f'|{prefix}{symbol.data[1:-1]}{suffix}|')
+    else:
+        res = Node(f'{prefix}{symbol.data}{suffix}')
+    if is_var(res):
+        return None
+    return res
+
+
 def is_operator_app(node, name):
     return node.has_ident() and node.get_ident() == name
 
